@@ -27,9 +27,6 @@ theorem newRootSchemaWalker_j5 : newRootSchemaWalker j5Env = .ok rootScope := by
   rw [j5Env_root, schemaOf_SourceFile, specOf_SourceFile]
   rfl
 
-theorem storeNode_str (s : Str) : storeNode false (.str s) = sStr s := by
-  cases s <;> rfl
-
 /-- the root message while the file is walked -/
 def rootNode (p pkg : Node) (ti : Bool) (imports : Node) (te : Bool) (elems loc : Node) (tp : Bool) : Node :=
   .msg [false, tp, ti, te, false] [p, pkg, imports, elems, loc]
